@@ -7,8 +7,9 @@
 (* COM_STMT_PREPARE, COM_STMT_SEND_LONG_DATA, COM_STMT_EXECUTE (well formed, truncated      *)
 (* inside the value of parameter k, truncated inside the type array, unknown handle; with   *)
 (* the parameter types sent (new-params-bound = 1) or re-used from the previous execution   *)
-(* (new-params-bound = 0); succeeding or failing at the backend), COM_STMT_RESET,           *)
-(* COM_STMT_CLOSE.                                                                          *)
+(* (new-params-bound = 0); succeeding or failing at the backend; with header fields - a    *)
+(* cursor request in the flags byte, an iteration count other than 1 - that a server may    *)
+(* refuse to serve), COM_STMT_RESET, COM_STMT_CLOSE.                                        *)
 (*                                                                                          *)
 (* Values are tags, not bytes: the inline value of parameter q in the n-th command of the   *)
 (* behaviour is the tag <<n, q>>, the chunk sent by the n-th command is the tag n.  The      *)
@@ -60,7 +61,7 @@ Init == /\ nprep = 0
 
 N == Len(hist) + 1     \* index of the command being issued
 NBad == Cardinality({i \in 1..Len(hist) : hist[i].res \in {"unknown"}})
-NFault == Cardinality({i \in 1..Len(hist) : hist[i].res = "backend-error"})
+NFault == Cardinality({i \in 1..Len(hist) : hist[i].res \in {"backend-error", "may-refuse"}})
 
 -----------------------------------------------------------------------------------
 (* What a conforming client puts into an execute packet for handle h: no inline value for a *)
@@ -116,27 +117,35 @@ SendLongData(h, p) ==
 (* it does not (new-params-bound = 0), which a client may do once an execution of this      *)
 (* handle that carried the types has been processed.                                        *)
 (* fault: the statement reaches the backend and fails there (duplicate key, lock wait ...). *)
-Execute(h, pk, mal, ty, fault) ==
+(* hdr: "plain", or "special" = a well-formed packet whose header asks for something the    *)
+(* server may not support (cursor flags, iteration count # 1).  The server may refuse it or *)
+(* execute it (outcome "may-refuse": `used` is what it must use IF it executes); either way *)
+(* it was an execution of the statement: nothing sent or bound for it survives.  In the     *)
+(* KeepOnFailure variant the refusal happens before binding and leaves the statement as is. *)
+Execute(h, pk, mal, ty, fault, hdr) ==
     IF h \notin open
     THEN /\ NBad < MaxBad
-         /\ mal = 0 /\ ty = "sent" /\ ~fault
-         /\ hist' = Append(hist, [c |-> "exec", h |-> h, pk |-> pk, mal |-> mal, ty |-> ty, fault |-> fault,
+         /\ mal = 0 /\ ty = "sent" /\ ~fault /\ hdr = "plain"
+         /\ hist' = Append(hist, [c |-> "exec", h |-> h, pk |-> pk, mal |-> mal, ty |-> ty, fault |-> fault, hdr |-> hdr,
                                   res |-> "unknown", used |-> <<>>])
          /\ UNCHANGED <<nprep, open, par, typed>>
     ELSE /\ mal \in Params => pk[mal] = "val"
          /\ ty = "reused" => (AllowReuse /\ h \in typed /\ mal # NP + 1)
          /\ fault => (mal = 0 /\ NFault < MaxFault)
+         /\ hdr = "special" => (mal = 0 /\ ~fault /\ ty = "sent" /\ NFault < MaxFault)
          /\ LET inl == InlineFrom(pk, N, 1, mal)
                 b   == IF mal = NP + 1 THEN [ok |-> FALSE, args |-> par[h]] ELSE Bind(par[h], pk, inl, 1, 1)
             IN IF b.ok
-               THEN /\ par' = [par EXCEPT ![h] = IF fault /\ KeepOnFailure THEN b.args ELSE AllUnset]
-                    /\ typed' = typed \cup {h}
-                    /\ hist' = Append(hist, [c |-> "exec", h |-> h, pk |-> pk, mal |-> mal, ty |-> ty, fault |-> fault,
-                                             res |-> IF fault THEN "backend-error" ELSE "ok",
+               THEN /\ par' = [par EXCEPT ![h] = IF KeepOnFailure /\ fault THEN b.args
+                                                   ELSE IF KeepOnFailure /\ hdr = "special" THEN @
+                                                   ELSE AllUnset]
+                    /\ typed' = IF hdr = "special" THEN typed \ {h} ELSE typed \cup {h}  \* types are re-sent after a possible refusal
+                    /\ hist' = Append(hist, [c |-> "exec", h |-> h, pk |-> pk, mal |-> mal, ty |-> ty, fault |-> fault, hdr |-> hdr,
+                                             res |-> IF fault THEN "backend-error" ELSE IF hdr = "special" THEN "may-refuse" ELSE "ok",
                                              used |-> [p \in Params |-> UsedOf(b.args[p])]])
                ELSE /\ par' = [par EXCEPT ![h] = IF KeepOnFailure THEN b.args ELSE AllUnset]
                     /\ typed' = IF ty = "sent" THEN typed \ {h} ELSE typed   \* the client re-sends the types after a refused packet
-                    /\ hist' = Append(hist, [c |-> "exec", h |-> h, pk |-> pk, mal |-> mal, ty |-> ty, fault |-> fault,
+                    /\ hist' = Append(hist, [c |-> "exec", h |-> h, pk |-> pk, mal |-> mal, ty |-> ty, fault |-> fault, hdr |-> hdr,
                                              res |-> "malformed", used |-> <<>>])
          /\ UNCHANGED <<nprep, open>>
 
@@ -162,7 +171,8 @@ Next == /\ Len(hist) < MaxLen
         /\ \/ Prepare
            \/ \E h \in Handles, p \in Params : SendLongData(h, p)
            \/ \E h \in Handles : \E pk \in Shapes(h) : \E mal \in 0..(NP + 1) :
-                  \E ty \in {"sent", "reused"} : \E fault \in BOOLEAN : Execute(h, pk, mal, ty, fault)
+                  \E ty \in {"sent", "reused"} : \E fault \in BOOLEAN : \E hdr \in {"plain", "special"} :
+                      Execute(h, pk, mal, ty, fault, hdr)
            \/ \E h \in Handles : Reset(h)
            \/ \E h \in Handles : Close(h)
 
@@ -178,7 +188,7 @@ IsOpenAt(hs, h) ==      \* after the commands hs, is handle h open?
 Clears(e, h) == /\ e.h = h
                 /\ \/ e.c = "prepare"
                    \/ e.c = "reset" /\ e.res = "ok"
-                   \/ e.c = "exec" /\ e.res \in {"ok", "malformed", "backend-error"}
+                   \/ e.c = "exec" /\ e.res \in {"ok", "malformed", "backend-error", "may-refuse"}
 
 LastClear(hs, h) == LET S == {i \in 1..Len(hs) : Clears(hs[i], h)}
                     IN IF S = {} THEN 0 ELSE CHOOSE i \in S : \A j \in S : j <= i
@@ -201,7 +211,7 @@ TypeOK ==
 UsedMatchesHistory ==
     \A n \in 1..Len(hist) :
         LET e == hist[n] IN
-        (e.c = "exec" /\ e.res \in {"ok", "backend-error"}) =>
+        (e.c = "exec" /\ e.res \in {"ok", "backend-error", "may-refuse"}) =>
             \A p \in Params :
                 LET ls == LongSince(SubSeq(hist, 1, n - 1), e.h, p) IN
                 e.used[p] = IF ls # <<>> THEN ULong(ls)
@@ -212,7 +222,7 @@ UsedMatchesHistory ==
 Isolated ==
     \A n \in 1..Len(hist) :
         LET e == hist[n] IN
-        (e.c = "exec" /\ e.res \in {"ok", "backend-error"}) =>
+        (e.c = "exec" /\ e.res \in {"ok", "backend-error", "may-refuse"}) =>
             \A p \in Params :
                 /\ e.used[p].k = "val" => e.used[p].tag[1] = n
                 /\ e.used[p].k = "long" =>
@@ -232,11 +242,12 @@ MalformedFails ==
         LET e == hist[n] IN
         (e.c = "exec" /\ e.res # "unknown") => /\ ((e.res = "malformed") <=> (e.mal # 0))
                                                 /\ ((e.res = "backend-error") <=> e.fault)
+                                                /\ ((e.res = "may-refuse") <=> (e.hdr = "special"))
 
 (* a failed execution - refused packet or failure at the backend - leaves nothing behind   *)
 (* (state form; the history form is UsedMatchesHistory)                                     *)
 FailedLeavesUnset ==
-    (Len(hist) > 0 /\ hist[Len(hist)].c = "exec" /\ hist[Len(hist)].res \in {"malformed", "backend-error"})
+    (Len(hist) > 0 /\ hist[Len(hist)].c = "exec" /\ hist[Len(hist)].res \in {"malformed", "backend-error", "may-refuse"})
         => par[hist[Len(hist)].h] = AllUnset
 
 (* nothing is ever left bound between commands; closed handles hold nothing *)
